@@ -26,6 +26,7 @@ type snapshot struct {
 	dexLocked  map[uint64]*lib.DexBatch
 	dexNext    map[uint64]*lib.DexBatch
 	digest     []byte // hash over all raw (key,value) pairs of the state
+	keys       [][]byte
 	nKeys      int
 }
 
@@ -44,6 +45,9 @@ func (w *world) scan(n *node) *snapshot {
 		k, v := it.Key(), it.Value()
 		h.add(k, v)
 		s.nKeys++
+		if w.c.Prop == "C19" {
+			s.keys = append(s.keys, append([]byte(nil), k...))
+		}
 		segs := decodeSegs(k)
 		if len(segs) == 0 || len(segs[0]) != 1 {
 			continue
